@@ -173,10 +173,18 @@ def twin_resume(task: dict) -> str:
         if k in relaxed:
             relaxed[k] = -1
     relaxed.pop("fail_at", None)
-    a = rec.record_trace(task["tid"] + "_direct", tt, task["pre"] + [relaxed], task.get("cfg_relaxed"))
-    b = rec.record_trace(task["tid"], tt, task["pre"] + [task["op"], relaxed], task.get("cfg"))
-    rel = "resume" if relaxed["op"] in ("bfs", "dfs", "tgt") else "resume_min"
-    if len(b["events"]) != len(a["events"]) + 1:
+    a = rec.record_trace(task["tid"] + "_direct", tt, task["pre"] + [relaxed])
+    # the interrupted run: the restrictive configuration applies to the interrupted call only, then the limits are relaxed
+    ops_b = list(task["pre"])
+    if task.get("cfg"):
+        ops_b.append({"op": "setcfg", "newcfg": task["cfg"]})
+    ops_b.append(task["op"])
+    if task.get("cfg"):
+        ops_b.append({"op": "setcfg", "newcfg": rec.default_cfg()})
+    ops_b.append(relaxed)
+    b = rec.record_trace(task["tid"], tt, ops_b)
+    rel = "resume" if relaxed["op"] in ("bfs", "dfs", "tgt") else ("resume_seeds" if relaxed["op"] == "seeds" else "resume_min")
+    if len(b["events"]) < len(a["events"]) + 1:
         return ""
     x = {"tid": task["tid"], "rel": rel, "perm": [], "neg": [], "val": [], "a": slim(a)[-1:], "b": slim(b)[-1:], "map": [1],
          "net": a["net"], "calls": [e["op"] for e in b["events"]], "canonical": False}
